@@ -268,6 +268,8 @@ Unexplained(km, out, ideal, allow) ==
        CASE ei.k \in {"v5", "v7"} -> {<<"C03", ei.k, "complete-packet-not-decoded", ok>>}
          [] ei.k = "err" /\ ei.why \in CutWhy ->
               {<<"C14", "trunc", ToString(ei.ver), ok>>}
+              \* C03's last sentence: a buffer shorter than 24 + 48/52 * count is an error, never a shorter packet
+              \cup (IF ei.why = "fixed-cut" THEN {<<"C03", IF ei.ver = 5 THEN "v5" ELSE "v7", "short-buffer-not-an-error", ok>>} ELSE {})
          [] ei.k = "err" /\ ei.why = "unknown-template" -> {<<"C07", "v9", "unknown-template", ok>>}
          [] ei.k = "err" /\ ei.why = "unknown-version" -> {<<"C12", "filter", "unknown-version", ok>>}
          [] ei.k = "v9" /\ V9ItemConf(km, ei) -> {<<"C04", "v9", "structure", ok>>}
